@@ -36,6 +36,8 @@ inductive Arg where
   | out (k : Nat)
   | num (n : Nat)
   | sym (s : String)      -- an identifier that is none of the above
+  | romSym (s : String)   -- `rom:<name>`: the address of a ROM data variable   (outside the modelled subset:
+  | romReg (k : Nat)      -- `rom:[rK]`: the ROM cell register K points to        no `matchLine` alternative takes them)
 deriving DecidableEq, Repr, Inhabited
 
 structure Line where
@@ -62,12 +64,26 @@ structure IoAtt where
   index : Nat
 deriving DecidableEq, Repr, Inhabited
 
+/-- a `.romdata` section: variables with a repeat count (`N:db`, 1 for plain `db`) and byte values -/
+structure DataVar where
+  name : String
+  rep : Nat
+  vals : List Nat
+deriving DecidableEq, Repr, Inhabited
+
+structure DataSec where
+  name : String
+  vars : List DataVar
+deriving DecidableEq, Repr, Inhabited
+
 structure Source where
   rsize : Option Nat := none   -- `registersize`
   iomode : Option IoMode := none
   sections : List Section := []
   cps : List CpDef := []
   ioatts : List IoAtt := []
+  datas : List DataSec := []              -- outside the modelled subset (the model assembler ignores them;
+  cpData : List (String × String) := []   --   cp name ↦ romdata section)   the oracle only interprets them)
 deriving DecidableEq, Repr, Inhabited
 
 inductive Err where
@@ -196,6 +212,8 @@ def resolveArg (tbl : List (String × Nat)) : Arg → Operand
   | .sym s => match lookup tbl s with
     | some i => .num i
     | none => .bad
+  | .romSym _ => .bad
+  | .romReg _ => .bad
 
 def resolve (rs : List RLine) : List Instr :=
   let tbl := labelTable rs
